@@ -461,6 +461,74 @@ pub fn run(tier: Tier) -> i32 {
         }
     }
 
+    // ---------------- one expression object, rows of several layouts -------
+    // The same `Expr` value is evaluated on the full row, on the projection
+    // with the columns in reverse order, on a projection holding only the
+    // columns it mentions (reversed), and on the full row again: a row "that
+    // has the referenced columns" may have them anywhere.
+    let names: Vec<&'static str> = column_values().into_iter().map(|c| c.0).collect();
+    let mut reuse: Vec<E> = Vec::new();
+    for op in ALL_UN {
+        for a in &names {
+            reuse.push(E::un(op, E::col(a)));
+        }
+    }
+    for op in ALL_BIN {
+        for a in &names {
+            for b in &names {
+                reuse.push(E::bin(op, E::col(a), E::col(b)));
+            }
+        }
+    }
+    let reuse_results: Vec<Vec<(String, String)>> = reuse
+        .par_iter()
+        .map_init(
+            || {
+                let mut p = make_row_package();
+                let full = the_row(&mut p);
+                let mut rev: Vec<&str> = names.clone();
+                rev.reverse();
+                let reversed = p.select_rows(msi::Select::table("R").columns(&rev[..])).expect("select reversed").next().expect("one row");
+                (p, full, reversed)
+            },
+            |(p, full, reversed), e| {
+                let mut out = Vec::new();
+                let acc = ref_eval(e, &lookup);
+                let x = match catch(|| e.to_msi()) {
+                    Ok(x) => x,
+                    Err(_) => return out, // reported by the groups above
+                };
+                let mut mentioned = BTreeSet::new();
+                e.columns(&mut mentioned);
+                let mut only: Vec<String> = mentioned.into_iter().collect();
+                only.reverse();
+                let narrow = p.select_rows(msi::Select::table("R").columns(&only[..])).expect("select narrow").next().expect("one row");
+                for (layout, row) in [("full row", &*full), ("columns reversed", &*reversed), ("only the mentioned columns", &narrow), ("full row again", &*full)] {
+                    match catch(|| Val::from_msi(&x.eval(row))) {
+                        Err(pn) => {
+                            out.push((format!("panic-in-eval:reused-expression:{}", panic_site(&pn)), format!("evaluating the same {} a second time, on the row layout `{}`, panicked: {}", e.show(), layout, pn)));
+                            break;
+                        }
+                        Ok(v) => {
+                            if !acc.contains(&v) {
+                                out.push((format!("wrong-result:reused-expression:{}", top(e)), format!("the same expression object {} evaluated on the row layout `{}` gives {} but the documented result is {}", e.show(), layout, v.show(), acc.iter().map(|a| a.show()).collect::<Vec<_>>().join(" or "))));
+                                break;
+                            }
+                        }
+                    }
+                }
+                out
+            },
+        )
+        .collect();
+    let reuse_n = reuse.len() * 4;
+    for (e, r) in reuse.iter().zip(reuse_results.into_iter()) {
+        for (sig, detail) in r {
+            rep.violation(sig, detail, json!({"kind":"c13-expr","expr": e, "build": "reused on several row layouts"}));
+        }
+    }
+    rep.set("reused_expression_evaluations", reuse_n);
+
     // ---------------- conditions as WHERE of select/update/delete ----------
     let cond_cases: Vec<&Case> = cases[..depth1]
         .iter()
@@ -486,7 +554,7 @@ pub fn run(tier: Tier) -> i32 {
     rep.set("states", total);
     rep.set("transitions", total + where_n);
     rep.set("traces_validated_against_impl", total + where_n);
-    rep.set("evaluations", total + where_n + stotal);
+    rep.set("evaluations", total + where_n + stotal + reuse_n);
     rep.set("distinct_nontrivial", classes.len());
     rep.set("depth1_cases", depth1);
     rep.set("depth2_cases", depth2);
@@ -494,7 +562,7 @@ pub fn run(tier: Tier) -> i32 {
     rep.set("closure_values", vals.len());
     rep.set("where_calls", where_n);
     rep.set("exhaustive", true);
-    rep.set("rule", "every unary/binary operator (3+15+AND+OR) x V0 / V0^2 in four builds (literal-literal = folded at construction, column-column, literal-column, column-literal); depth 2 = every operator over the closure of depth-1 results (one representative expression per value, folded and lazy build); thorough adds depth 3 for integer operators; every depth-1 condition with a column also runs as WHERE of select, update and delete. distinct_nontrivial = number of distinct result values/outcome classes observed");
+    rep.set("rule", "every unary/binary operator (3+15+AND+OR) x V0 / V0^2 in four builds (literal-literal = folded at construction, column-column, literal-column, column-literal); depth 2 = every operator over the closure of depth-1 results (one representative expression per value, folded and lazy build); thorough adds depth 3 for integer operators; every depth-1 condition with a column also runs as WHERE of select, update and delete; every operator over every pair of columns is built once and evaluated on four row layouts (full, reversed, only the mentioned columns, full again). distinct_nontrivial = number of distinct result values/outcome classes observed");
     for i in [0usize, depth1 / 2, depth1 + 5, total - 1] {
         if i < total {
             rep.sample(json!({"expr": cases[i].e.show(), "build": cases[i].build}));
